@@ -75,7 +75,7 @@ func c15Gen(tier string, r *rand.Rand) []Case {
 		mk("uintn-boundary", ops)
 	}
 	// large n then small n: the high bytes of uintnBuffer are stale and must be masked
-	nst := 30
+	nst := 60
 	if th {
 		nst = 300
 	}
@@ -89,7 +89,7 @@ func c15Gen(tier string, r *rand.Rand) []Case {
 		mk("uintn-stale-mix", ops)
 	}
 	// random n of random bit length
-	nrn := 40
+	nrn := 80
 	if th {
 		nrn = 600
 	}
@@ -114,7 +114,7 @@ func c15Gen(tier string, r *rand.Rand) []Case {
 				{Op: "subperm", N: c15i64s(n), M: m}, {Op: "samples", N: c15i64s(n), M: m},
 				{Op: "perm", N: c15i64s(n)}, {Op: "shuffle", N: c15i64s(n)}, un(uint64(n) + 1),
 			}
-			rp := 1
+			rp := 2
 			if th {
 				rp = 6
 			}
@@ -124,11 +124,11 @@ func c15Gen(tier string, r *rand.Rand) []Case {
 		}
 	}
 	// random (n, m)
-	nr := 30
+	nr := 40
 	maxn := 300
 	if th {
 		nr = 400
-		maxn = 1500
+		maxn = 1000
 	}
 	for i := 0; i < nr; i++ {
 		n := int64(1 + r.IntN(maxn))
